@@ -1056,3 +1056,10 @@ func init() {
 		return mkBool((sign >= 0 && c == fPosInf) || (sign <= 0 && c == fNegInf))
 	}
 }
+
+func init() {
+	apiIntrinsics["vRunGoroutines"] = func(fr *frame, args []value) value {
+		fr.r.flushGoroutines()
+		return nil
+	}
+}
